@@ -16,35 +16,52 @@ open TH TH.Req
 theorem one_final_response (mc : Bool) (n : Nat) (last : Op) (hl : last ≠ .asReader) :
     ∃ s, run { mustContinue := mc } (List.replicate n .asReader ++ [last]) = some s ∧
       (s.emitted.filter isFinal).length = 1 ∧ s.alive = false ∧ s.writerSlot = false := by
-  sorry
+  rw [run_append, run_replicate_asReader _ n rfl]
+  by_cases hc : mc = true ∧ 0 < n
+  · cases last with
+    | asReader => exact absurd rfl hl
+    | _ => simp [hc, run, step] <;> rfl
+  · cases last with
+    | asReader => exact absurd rfl hl
+    | _ => simp [hc, run, step] <;> rfl
 
 /-- a dropped request gets a 500, and only a dropped one does. -/
 theorem dropped_gets_500 (mc : Bool) (n : Nat) :
     ∃ s, run { mustContinue := mc } (List.replicate n .asReader ++ [.drop]) = some s ∧
       s.emitted.filter isFinal = [.final 500] := by
-  sorry
+  rw [run_append, run_replicate_asReader _ n rfl]
+  by_cases hc : mc = true ∧ 0 < n
+  · simp [hc, run, step, isFinal]
+  · simp [hc, run, step, isFinal]
 
 /-- no request is answered twice: after the consuming operation nothing more is possible. -/
 theorem nothing_after_consumption (s : RState) (h : s.alive = false) (o : Op) : step s o = none := by
-  sorry
+  exact step_dead s h o
 
 /-- the interim 100 appears at most once and only before the final response. -/
 theorem interim_only_first (s0 s : RState) (ops : List Op) (h0 : s0.emitted = []) (hr : run s0 ops = some s) :
     (s.emitted.filter (· == .interim100)).length ≤ 1 ∧
     (∀ pre post, s.emitted = pre ++ [.interim100] ++ post → pre = []) := by
-  sorry
+  exact shape_concl (shape_run ops s0 s (Or.inl (Or.inl h0)) hr)
 
 /-- in the connection model the same holds for what reaches the wire: the statuses generated for
     a handled request are `[100]?` then the finish's own status (C18.continue_exactly_once), so a
     `respond`, `drop` or `upgrade` yields exactly one final status. -/
 theorem finish_status_single (f : Finish) (h : ∀ ops, f ≠ .writer ops) : (Spec.finishStatus f).length = 1 := by
-  sorry
+  cases f with
+  | respond r => rfl
+  | drop => rfl
+  | writer ops => exact absurd rfl (h ops)
+  | upgrade p r ops => rfl
 
 /-- a dropped request never holds up the responses that follow it: once its writer is dropped,
     the next writer has its turn (Seq LTS). -/
 theorem drop_releases_successor (s s' : Lts.Seq.State) (h : Lts.Seq.Reachable s) (i : Nat)
     (hs : Lts.Seq.step s (.drop i) = some s') (hn : i + 1 < s'.writers.length)
     (ha : Lts.Seq.isDropped s' (i + 1) = false) : Lts.Seq.hasTurn s' (i + 1) = true := by
-  sorry
+  have _ := h
+  obtain ⟨hd, _⟩ := Lts.Seq.isDropped_after_drop hs
+  unfold Lts.Seq.hasTurn
+  simp [hn, ha, hd]
 
 end TH.Props.C06
